@@ -61,3 +61,28 @@ Proof.
     destruct (wrun_sound _ _ _ _ O R) as (full & S & P). exists tr, full, s. auto.
   - exists tr, tr, s. split; [reflexivity|]. split; [apply run_steps; exact R | reflexivity].
 Qed.
+
+(* ---- the model meets the oracle ---- *)
+(* what reliable, ordered transport shows the endpoints of a tunnel in LTS state s *)
+Definition model_dobs (s : state) (e k : list N) (tr : list label) (d : dir) : dobs :=
+  {| o_sent := early_of e k d ++ writes d tr; o_recv := d_rcv (get d s); o_shut := d_wcl (get d s);
+     o_eof := d_eof (get d s); o_eof_early := false |}.
+Definition model_obs (s : state) (e k : list N) (tr : list label) : obs :=
+  {| o_ct := model_dobs s e k tr CT; o_tc := model_dobs s e k tr TC; o_reply := []; o_gated := true;
+     o_forced := s_forced s; o_force_gap := 0%Z; o_closed_up := s_up s; o_closed_down := s_down s; o_timeout := false |}.
+
+(* Every state the LTS reaches in which the proxy is at rest and the forced close has not fired
+   satisfies the predicate the oracle evaluates on the real endpoints' observations. *)
+Theorem model_meets_oracle sh e k tr s :
+  shape_ok sh -> steps sh (init e [] k None None) tr s -> quiet sh s -> s_forced s = false ->
+  obs_property (model_obs s e k tr).
+Proof.
+  intros Hsh R Q F. unfold obs_property, model_obs; simpl.
+  assert (DP : forall d, dir_property (model_dobs s e k tr d)).
+  { intro d. unfold dir_property, model_dobs; simpl.
+    refine (conj (prefix_thm sh Hsh e k tr s R d) (conj _ (conj eq_refl _))).
+    - intro E. exact (proj2 (eof_after_all sh Hsh e k tr s R d F E)).
+    - intro W. destruct (complete sh Hsh e k tr s R d Q F W) as [A B]. split; assumption. }
+  refine (conj eq_refl (conj (DP CT) (conj (DP TC) (conj F _)))).
+  intros _ W1 W2. exact (both_closed sh Hsh e k tr s R Q W1 W2).
+Qed.
